@@ -1,2 +1,2 @@
-HOOK_COMMITS = ["662ea97"]
+HOOK_COMMITS = ['37a3ad8', 'b66df64', '1b1e7c2', '6ed1727', '02fa441', '6be89cd', '624490c', '10769b6', '13c0987', '363fa85', 'd38f240', '5bd7f8e', '662ea97']
 NOT_YET = {}
